@@ -32,6 +32,10 @@ func cmdSelftest(args []string) int {
 		{"SelfUnlockedWrite", "SHAREDWRITE:store", ""},
 		{"SelfFmtVerb", "", "R:done"},
 		{"SelfFmtRecursion", "UNWIND:", ""},
+		{"SelfTypedJSON", "", "R:done"},
+		{"SelfFprintf", "", "R:done"},
+		{"SelfTypeAssert", "PANIC:", ""},
+		{"SelfGlobStat", "", "R:done"},
 	}
 	fail := 0
 	for _, c := range cases {
